@@ -66,11 +66,27 @@ def ref_terms(case, vec):
         y = ybar * np.exp(sig * eps)
     else:
         y = ybar + sig * eps
-    data = c12._arr(case['y'])[..., order]
-    fl = rf.total(case['filter'][0], data, y, case['filter'][1])
+    # simulated measurement at sorted position k belongs to original time index
+    # order[k]; filters (and the blocks of a composed filter) are defined on the
+    # original time axis
+    data = c12._arr(case['y'])
+    sim_orig = np.zeros(y.shape, dtype=y.dtype)
+    sim_orig[..., order] = y
+    fl = rf.composed_total(_blocks(case), data, sim_orig)
     noise = -np.sum(eps ** 2) / 2
     prior = hier.ref_prior(vec[:n_top])
     return prior, lp, noise, fl
+
+
+def _blocks(case):
+    f = case['filter']
+    if isinstance(f[0], (list, tuple)):
+        return [tuple(b) for b in f]
+    return [(f[0], len(case['times']), f[1])]
+
+
+def _flabel(case):
+    return '+'.join(b[0] for b in _blocks(case))
 
 
 def ref_total(case, vec):
@@ -80,7 +96,8 @@ def ref_total(case, vec):
 def build_posterior(case):
     ns, n_obs = case['n_samples'], case['n_obs']
     data = c12._arr(case['y'])
-    f = c12.mk(case['filter'][0], data, case['filter'][1])
+    blocks = _blocks(case)
+    f = c12.build_filter(blocks, data, composed=len(blocks) > 1)
     pop = popbuild.build(
         case['spec'], ns if case['spec']['kind'] == 'Red' else None)
     n_pop, n_sig, _ = layout(case)
@@ -118,7 +135,7 @@ def ref_names(case):
 def w_post(case):
     viol = []
     lab = '%s filter=%s sigma=%s log=%s ns=%d' % (
-        popbuild.label(case['spec']), case['filter'][0],
+        popbuild.label(case['spec']), _flabel(case),
         'fixed' if case['sigma'] is not None else 'free', case['log_scale'],
         case['n_samples'])
     ntr = 0
@@ -242,6 +259,10 @@ def build(tier, seed):
     perms = [list(p) for p in itertools.permutations(range(3))]
     filters = [('G', 2), ('GKDE', 2)] if tier == 'quick' else \
         [('G', 2), ('GKDE', 2), ('LN', 2), ('LNKDE', 2), ('GM', 2)]
+    # composed filters over the (original) time axis: 1+2, 2+1 and 1+1+1 blocks
+    filters = filters + [
+        [('G', 1, 2), ('GKDE', 2, 2)], [('GKDE', 2, 2), ('LN', 1, 2)],
+        [('G', 1, 2), ('LN', 1, 2), ('GKDE', 1, 2)]]
     cases = []
     i = 0
     for spec in structs:
@@ -253,7 +274,7 @@ def build(tier, seed):
                 for r in range(rounds):
                     filt = filters[(i + r) % len(filters)]
                     ns = [2, 3, 4][(i // 2 + r) % 3]
-                    if filt[0] == 'GM':
+                    if 'GM' in str(filt):
                         ns = 4
                     perm = perms[(i + 2 * r) % 6]
                     times = [t3[k] for k in perm]
@@ -271,7 +292,7 @@ def build(tier, seed):
             for sigma_free in (False, True):
                 for log_scale in (False, True):
                     for perm in (perms if tier == 'thorough' else perms[::2]):
-                        ns = 4 if filt[0] == 'GM' else 3
+                        ns = 4 if 'GM' in str(filt) else 3
                         cases.append(make_case(
                             spec, filt, sigma_free, log_scale, ns,
                             [t3[k] for k in perm], 2, seed))
